@@ -173,6 +173,21 @@ fn classify(op: &str, imp: &str, model: &str) -> String {
     if matches!(op, "matrix" | "decaps" | "covers" | "c08" | "pke_dec" | "hdr_dec" | "parse" | "trace_check") {
         return "behaviour".into();
     }
+    // the flavour of an encapsulation made for the same number of targets: the model's flavour is, by
+    // `C11.encaps_hybrid_iff_all`, the conjunction of the flavours of the targeted rights, so a different
+    // flavour on the implementation is an outcome C11 talks about, not a mere difference of state
+    if matches!(op, "encaps" | "recaps") {
+        let f = |s: &str| -> Option<(String, String)> {
+            let r = s.strip_prefix("ok enc ")?;
+            let (fl, rest) = r.split_once(' ')?;
+            Some((fl.to_string(), rest.to_string()))
+        };
+        if let (Some((fa, ra)), Some((fb, rb))) = (f(imp), f(model)) {
+            if fa != fb && ra == rb {
+                return "behaviour".into();
+            }
+        }
+    }
     "state".into()
 }
 
